@@ -121,7 +121,7 @@ fn copy_worker(work: cbc::Receiver<Operation>, config: &Arc<Config>, updates: Ar
 
             Operation::Special(from, to) => {
                 info!("Worker[{:?}]: Special file {:?} -> {:?}", thread::current().id(), from, to);
-                if paths::exists(&to)? {
+                if paths::lexists(&to)? {
                     if config.no_clobber {
                         return Err(XcpError::DestinationExists("Destination file exists and --no-clobber is set.", to).into());
                     }
